@@ -11,6 +11,7 @@ import (
 
 type c12Inner struct {
 	IS string `long:"is"`
+	S  string `long:"is2"` // the same field name as an option of the enclosing group
 }
 type c12CmdGrp struct {
 	GS string `long:"gs"`
@@ -125,6 +126,8 @@ func H_C12_roundtrip(v *V) {
 		d1.D = v.String(lv)
 	case 8:
 		d1.Inner.IS = v.String(lv)
+		d1.Inner.S = "in" + v.String(1)
+		d1.S = "out"
 	case 9:
 		d1.Cmd.CS = v.String(lv)
 		d1.Cmd.CL = []string{v.String(1)}
@@ -172,7 +175,7 @@ func H_C12_roundtrip(v *V) {
 	}
 	v.Assert(d2.H == d1.H && d2.U == d1.U && d2.I64 == d1.I64 && d2.B == d1.B && d2.U64 == d1.U64 && d2.HU == d1.HU, "numbers in every base and booleans are reproduced exactly")
 	v.Assert(d2.F == d1.F && d2.Du == d1.Du, "floats and durations are reproduced exactly")
-	v.Assert(v.EqStr(d2.Inner.IS, d1.Inner.IS) && v.EqStr(d2.Cmd.CS, d1.Cmd.CS) && v.EqStrs(d2.Cmd.CL, d1.Cmd.CL) && v.EqStr(d2.Cmd.CG.GS, d1.Cmd.CG.GS), "options of nested groups and commands are reproduced exactly")
+	v.Assert(v.EqStr(d2.Inner.IS, d1.Inner.IS) && v.EqStr(d2.Inner.S, d1.Inner.S) && v.EqStr(d2.Cmd.CS, d1.Cmd.CS) && v.EqStrs(d2.Cmd.CL, d1.Cmd.CL) && v.EqStr(d2.Cmd.CG.GS, d1.Cmd.CG.GS), "options of nested groups and commands are reproduced exactly")
 }
 
 // H_C12_long: values longer than the reader's line buffer round-trip.
